@@ -7,4 +7,8 @@ MCReaders == @READERS@
 MCRegistrars == @REGISTRARS@
 MCProcessors == @PROCESSORS@
 MCShared == @SHARED@
+MCUserMut == @USERMUT@
+MCEvMut == @EVMUT@
+MCEvInit == @EVINIT@
+MCPanickers == @PANICKERS@
 =============================================================================
